@@ -1,0 +1,30 @@
+//go:build verif
+// +build verif
+
+package provider
+
+import (
+	"context"
+	"fmt"
+
+	sdk "github.com/cosmos/cosmos-sdk/types"
+	bankTypes "github.com/cosmos/cosmos-sdk/x/bank/types"
+	"github.com/ovrclk/akash/provider/session"
+	"github.com/ovrclk/akash/pubsub"
+	"github.com/ovrclk/akash/util/veriftrace"
+)
+
+// vt reports the top of every iteration of the balance checker loop (with the
+// result channels that are armed) and the end of run() to the verification trace.
+func (bc *balanceChecker) vt(event string, kv ...interface{}) {
+	veriftrace.Emit("balance-checker", fmt.Sprintf("%s#%p", bc.ownAddr.String(), bc), event, kv...)
+}
+
+// VerifNewBalanceChecker starts a balance checker on its own, exactly as
+// NewService starts it (newBalanceChecker), and returns the channel that is
+// closed when its loop has ended. It exists only in builds with the "verif" tag.
+func VerifNewBalanceChecker(ctx context.Context, bankQueryClient bankTypes.QueryClient, accAddr sdk.AccAddress,
+	clientSession session.Session, bus pubsub.Bus, cfg BalanceCheckerConfig) <-chan struct{} {
+	bc := newBalanceChecker(ctx, bankQueryClient, accAddr, clientSession, bus, cfg)
+	return bc.lc.Done()
+}
